@@ -1584,6 +1584,367 @@ example : ∀ σ, 0 < σ → IsProx exTreeHuber.dom exTreeHuber.val σ
 
 end Comp
 
+/-! ## ROUND 4: group L1-L2 norm, vector Huber and the group ball on power spaces — theorems
+about the EXECUTED `.l1l2`, `.huberG`, `.ccl1l2` nodes of `Fn.prox` (compared with the real code on
+the exact / edge / tree streams) -/
+section Group
+open Finset
+variable {K : Type} [Field K] [LinearOrder K] [IsStrictOrderedRing K]
+
+/-- Block soft thresholding as `ProximalL1L2._call` writes it, one group (all `d` components at
+one point): for ANY finite index set, component weights `pw ≥ 0`, data term `g`, threshold
+`s = σλ > 0`, if `p_k = x_k − (x_k − g_k)/max(|x − g|_pw / s, 1)` then
+`s·|p − g|_pw + ⟨x − p, z − p⟩_pw ≤ s·|z − g|_pw` for every `z` — the variational inequality of
+`prox_{s|· − g|_pw}` (weighted Cauchy–Schwarz in an ordered field; `sqrt` a parameter that is
+exact on squares; `rd`, `re` name the two norms).  Used by `C07.l1l2_list_minimises`. -/
+theorem C07.group_soft_vi {ι : Type} (I : Finset ι) (sqrt : K → K) (pw x g z p : ι → K)
+    (s rd re : K) (hsq : ∀ r, 0 ≤ r → sqrt (r * r) = r)
+    (hpw : ∀ k ∈ I, 0 ≤ pw k) (hs : 0 < s) (hrd : 0 ≤ rd) (hre : 0 ≤ re)
+    (hd : ∑ k ∈ I, pw k * ((x k - g k) * (x k - g k)) = rd * rd)
+    (he : ∑ k ∈ I, pw k * ((z k - g k) * (z k - g k)) = re * re)
+    (hp : ∀ k ∈ I, p k = x k - (x k - g k)
+      / maxK (sqrt (∑ k ∈ I, pw k * ((x k - g k) * (x k - g k))) / s) 1) :
+    s * sqrt (∑ k ∈ I, pw k * ((p k - g k) * (p k - g k)))
+        + ∑ k ∈ I, pw k * ((x k - p k) * (z k - p k))
+      ≤ s * sqrt (∑ k ∈ I, pw k * ((z k - g k) * (z k - g k))) := by
+  rw [he, hsq re hre]
+  rw [hd, hsq rd hrd, maxK_eq] at hp
+  set c := max (rd / s) 1 with hc
+  have hc1 : 1 ≤ c := by rw [hc]; exact le_max_right _ _
+  have hcpos : 0 < c := lt_of_lt_of_le one_pos hc1
+  set th := 1 - 1 / c with hth
+  have hth0 : 0 ≤ th := by
+    rw [hth, sub_nonneg, div_le_one hcpos]; exact hc1
+  have hpg : ∀ k ∈ I, p k - g k = th * (x k - g k) := by
+    intro k hk; rw [hp k hk, hth]; field_simp; ring
+  have hxp : ∀ k ∈ I, x k - p k = (1 / c) * (x k - g k) := by
+    intro k hk; rw [hp k hk]; field_simp; ring
+  have hP : ∑ k ∈ I, pw k * ((p k - g k) * (p k - g k)) = (th * rd) * (th * rd) := by
+    rw [← group_scale I pw (fun k => x k - g k) rd th hd]
+    exact Finset.sum_congr rfl (fun k hk => by rw [hpg k hk])
+  rw [hP, hsq _ (mul_nonneg hth0 hrd)]
+  have hcs := group_cs I pw (fun k => x k - g k) (fun k => z k - g k) rd re hpw hrd hre hd he
+  have hsum : ∑ k ∈ I, pw k * ((x k - p k) * (z k - p k))
+      = (1 / c) * (∑ k ∈ I, pw k * ((x k - g k) * (z k - g k))) - (1 / c) * th * (rd * rd) := by
+    rw [← hd, Finset.mul_sum, Finset.mul_sum, ← Finset.sum_sub_distrib]
+    apply Finset.sum_congr rfl
+    intro k hk
+    have : z k - p k = (z k - g k) - th * (x k - g k) := by rw [← hpg k hk]; ring
+    rw [hxp k hk, this]; ring
+  rw [hsum]
+  have hic : 0 ≤ 1 / c := by positivity
+  -- (1/c) rd ≤ s and th * (s - rd / c) = 0
+  have hrc : rd / c ≤ s := by
+    rw [div_le_iff₀ hcpos, hc]
+    calc rd = s * (rd / s) := by field_simp
+      _ ≤ s * max (rd / s) 1 := by gcongr; exact le_max_left _ _
+  have hzero : th * (s - rd / c) = 0 := by
+    rcases le_total (rd / s) 1 with h | h
+    · have : c = 1 := by rw [hc]; exact max_eq_right h
+      simp [hth, this]
+    · have : c = rd / s := by rw [hc]; exact max_eq_left h
+      have hrdpos : 0 < rd := by
+        by_contra hh
+        have : rd = 0 := le_antisymm (not_lt.mp hh) hrd
+        rw [this] at h; simp at h; linarith
+      rw [this]; field_simp; ring
+  have h1 : (1 / c) * (∑ k ∈ I, pw k * ((x k - g k) * (z k - g k))) ≤ (1 / c) * (rd * re) :=
+    mul_le_mul_of_nonneg_left hcs hic
+  have h2 : (1 / c) * (rd * re) ≤ s * re := by
+    calc (1 / c) * (rd * re) = (rd / c) * re := by ring
+      _ ≤ s * re := by gcongr
+  have h3 : s * (th * rd) - (1 / c) * th * (rd * rd) = rd * (th * (s - rd / c)) := by ring
+  nlinarith [h1, h2, h3, hzero]
+
+/-- `ProximalHuber._call` on a product space, one group (all components at one point),
+`γ > 0`: if `p_k = γ/(γ+σ)·x_k` where `|x|_pw ≤ γ+σ` and `x_k − σ x_k/|x|_pw` elsewhere, then
+`σ f_γ(|p|_pw) + ⟨x − p, z − p⟩_pw ≤ σ f_γ(|z|_pw)` for every `z` (reduction to the scalar
+`C07.huber_vi` at the norms by Cauchy–Schwarz).  Used by `C07.huberG_list_minimises`. -/
+theorem C07.group_huber_vi {ι : Type} (I : Finset ι) (sqrt : K → K) (pw x z p : ι → K)
+    (gam s rd re : K) (hsq : ∀ r, 0 ≤ r → sqrt (r * r) = r)
+    (hpw : ∀ k ∈ I, 0 ≤ pw k) (hg : 0 < gam) (hs : 0 < s) (hrd : 0 ≤ rd) (hre : 0 ≤ re)
+    (hd : ∑ k ∈ I, pw k * (x k * x k) = rd * rd)
+    (he : ∑ k ∈ I, pw k * (z k * z k) = re * re)
+    (hp' : ∀ k ∈ I, p k = if sqrt (∑ k ∈ I, pw k * (x k * x k)) ≤ gam + s
+      then gam / (gam + s) * x k else x k - s * (x k / sqrt (∑ k ∈ I, pw k * (x k * x k)))) :
+    s * huberFn gam (sqrt (∑ k ∈ I, pw k * (p k * p k)))
+        + ∑ k ∈ I, pw k * ((x k - p k) * (z k - p k))
+      ≤ s * huberFn gam (sqrt (∑ k ∈ I, pw k * (z k * z k))) := by
+  rw [hd, hsq rd hrd] at hp'
+  obtain ⟨ka, hk0, hk1, hcode, hent⟩ := huber_kappa gam s rd hg.le hs hrd
+  have hp : ∀ k ∈ I, p k = ka * x k := by intro k hk; rw [hp' k hk]; exact hent (x k)
+  have hP : ∑ k ∈ I, pw k * (p k * p k) = (ka * rd) * (ka * rd) := by
+    rw [← group_scale I pw x rd ka hd]
+    exact Finset.sum_congr rfl (fun k hk => by rw [hp k hk])
+  rw [hP, hsq _ (mul_nonneg hk0 hrd), he, hsq re hre]
+  have hrad := group_radial I pw x z rd re ka hpw hrd hre hk1 hd he
+  have hsc := C07.huber_vi gam s rd re hg hs
+  rw [hcode] at hsc
+  have : ∑ k ∈ I, pw k * ((x k - p k) * (z k - p k))
+      = ∑ k ∈ I, pw k * ((x k - ka * x k) * (z k - ka * x k)) :=
+    Finset.sum_congr rfl (fun k hk => by rw [hp k hk])
+  rw [this]; linarith
+
+/-- The same for `γ = 0` (documented: the isotropic group L1-L2 norm), with the formula exactly
+as the code evaluates it (`0/(0+σ)·x` below the threshold): variational inequality of `σ|·|_pw`.
+Used by `C07.huberG_list_minimises_gamma0`. -/
+theorem C07.group_huber_vi_gamma0 {ι : Type} (I : Finset ι) (sqrt : K → K) (pw x z p : ι → K)
+    (s rd re : K) (hsq : ∀ r, 0 ≤ r → sqrt (r * r) = r)
+    (hpw : ∀ k ∈ I, 0 ≤ pw k) (hs : 0 < s) (hrd : 0 ≤ rd) (hre : 0 ≤ re)
+    (hd : ∑ k ∈ I, pw k * (x k * x k) = rd * rd)
+    (he : ∑ k ∈ I, pw k * (z k * z k) = re * re)
+    (hp' : ∀ k ∈ I, p k = if sqrt (∑ k ∈ I, pw k * (x k * x k)) ≤ 0 + s
+      then 0 / (0 + s) * x k else x k - s * (x k / sqrt (∑ k ∈ I, pw k * (x k * x k)))) :
+    s * sqrt (∑ k ∈ I, pw k * (p k * p k))
+        + ∑ k ∈ I, pw k * ((x k - p k) * (z k - p k))
+      ≤ s * sqrt (∑ k ∈ I, pw k * (z k * z k)) := by
+  rw [hd, hsq rd hrd] at hp'
+  obtain ⟨ka, hk0, hk1, hcode, hent⟩ := huber_kappa 0 s rd le_rfl hs hrd
+  have hp : ∀ k ∈ I, p k = ka * x k := by intro k hk; rw [hp' k hk]; exact hent (x k)
+  have hP : ∑ k ∈ I, pw k * (p k * p k) = (ka * rd) * (ka * rd) := by
+    rw [← group_scale I pw x rd ka hd]
+    exact Finset.sum_congr rfl (fun k hk => by rw [hp k hk])
+  rw [hP, hsq _ (mul_nonneg hk0 hrd), he, hsq re hre]
+  have hrad := group_radial I pw x z rd re ka hpw hrd hre hk1 hd he
+  have hsc := C07.huber_vi_gamma0 s rd re hs
+  rw [hcode, abs_of_nonneg (mul_nonneg hk0 hrd), abs_of_nonneg hre] at hsc
+  have : ∑ k ∈ I, pw k * ((x k - p k) * (z k - p k))
+      = ∑ k ∈ I, pw k * ((x k - ka * x k) * (z k - ka * x k)) :=
+    Finset.sum_congr rfl (fun k hk => by rw [hp k hk])
+  rw [this]; linarith
+
+/-- `ProximalConvexConjL1L2._call`, one group: `p = y / (max(|y|_pw, lam)/lam)` with
+`y = x − σ g` lies in the ball `|p|_pw ≤ lam` and satisfies the projection inequality
+`⟨y − p, z − p⟩_pw ≤ 0` against every `z` of that ball.  Used by `C07.ccl1l2_list_projection`. -/
+theorem C07.group_ball_vi {ι : Type} (I : Finset ι) (sqrt : K → K) (pw y z p : ι → K)
+    (lam rd re : K) (hsq : ∀ r, 0 ≤ r → sqrt (r * r) = r)
+    (hpw : ∀ k ∈ I, 0 ≤ pw k) (hl : 0 < lam) (hrd : 0 ≤ rd) (hre : 0 ≤ re) (hz : re ≤ lam)
+    (hd : ∑ k ∈ I, pw k * (y k * y k) = rd * rd)
+    (he : ∑ k ∈ I, pw k * (z k * z k) = re * re)
+    (hp' : ∀ k ∈ I, p k = y k / (maxK (sqrt (∑ k ∈ I, pw k * (y k * y k))) lam / lam)) :
+    sqrt (∑ k ∈ I, pw k * (p k * p k)) ≤ lam ∧
+    ∑ k ∈ I, pw k * ((y k - p k) * (z k - p k)) ≤ 0 := by
+  rw [hd, hsq rd hrd, maxK_eq] at hp'
+  have hmpos : 0 < max rd lam := lt_of_lt_of_le hl (le_max_right _ _)
+  set ka := lam / max rd lam with hka
+  have hk0 : 0 ≤ ka := by positivity
+  have hk1 : ka ≤ 1 := by rw [hka, div_le_one hmpos]; exact le_max_right _ _
+  have hp : ∀ k ∈ I, p k = ka * y k := by
+    intro k hk; rw [hp' k hk, hka]; field_simp
+  have hP : ∑ k ∈ I, pw k * (p k * p k) = (ka * rd) * (ka * rd) := by
+    rw [← group_scale I pw y rd ka hd]
+    exact Finset.sum_congr rfl (fun k hk => by rw [hp k hk])
+  have hkr : ka * rd ≤ lam := by
+    rw [hka, div_mul_eq_mul_div, div_le_iff₀ hmpos]
+    exact mul_le_mul_of_nonneg_left (le_max_left _ _) hl.le
+  refine ⟨by rw [hP, hsq _ (mul_nonneg hk0 hrd)]; exact hkr, ?_⟩
+  have hrad := group_radial I pw y z rd re ka hpw hrd hre hk1 hd he
+  have : ∑ k ∈ I, pw k * ((y k - p k) * (z k - p k))
+      = ∑ k ∈ I, pw k * ((y k - ka * y k) * (z k - ka * y k)) :=
+    Finset.sum_congr rfl (fun k hk => by rw [hp k hk])
+  rw [this]
+  refine le_trans hrad ?_
+  rcases le_total rd lam with h | h
+  · have : ka = 1 := by rw [hka, max_eq_right h, div_self hl.ne']
+    rw [this]; simp
+  · have hrdpos : 0 < rd := lt_of_lt_of_le hl h
+    have : ka * rd = lam := by rw [hka, max_eq_left h]; field_simp
+    rw [this]
+    exact mul_nonpos_of_nonneg_of_nonpos (by linarith) (by linarith)
+
+/-- `proximal_l1_l2` (`GroupL1Norm(·, 2).proximal`, block soft thresholding) as EXECUTED by
+`Fn.prox` on a power space `X^d` (components laid out one after the other, `m` points each), every
+`d ≥ 1`, every `m`, every data term `g`, component weights `pw ≥ 0`, base-space weights `b ≥ 0`
+(cell volume / weighting of `X`), float step: the result minimises
+`Σ_i b_i (λ·sqrt(Σ_k pw_k (z_k(i) − g_k(i))²) + Σ_k pw_k (z_k(i) − x_k(i))²/(2σ))` over all `z`,
+with a quadratic gap.  `np.sqrt` is the parameter `E.sqrt`, assumed exact on squares
+(`sqrt(r·r) = r` for `r ≥ 0`: true for `Real.sqrt`, and for the driver's rational root on the
+exact stream); `rd i`, `re i` name the point-wise norms of `x − g` and `z − g` (over `ℝ` they
+always exist). -/
+theorem C07.l1l2_list_minimises (E : Env K) (pw : List K) (d m : ℕ) (lam s : K)
+    (g : Option (List K)) (w x z : List K) (b rd re : ℕ → K)
+    (hsq : ∀ r, 0 ≤ r → E.sqrt (r * r) = r) (hd : 0 < d) (hx : x.length = d * m)
+    (hpw : ∀ k < d, 0 ≤ pw.getD k 1) (hl : 0 < lam) (hs : 0 < s) (hb : ∀ i < m, 0 ≤ b i)
+    (hrd : ∀ i < m, 0 ≤ rd i ∧ ∑ k ∈ range d, pw.getD k 1 *
+      ((x.getD (k * m + i) 0 - gAt g (k * m + i)) * (x.getD (k * m + i) 0 - gAt g (k * m + i)))
+        = rd i * rd i)
+    (hre : ∀ i < m, 0 ≤ re i ∧ ∑ k ∈ range d, pw.getD k 1 *
+      ((z.getD (k * m + i) 0 - gAt g (k * m + i)) * (z.getD (k * m + i) 0 - gAt g (k * m + i)))
+        = re i * re i) :
+    let p := Fn.prox E (.l1l2 pw d lam g) w (.sc s) x
+    p.length = x.length ∧
+    ∑ i ∈ range m, b i * (lam * E.sqrt (∑ k ∈ range d, pw.getD k 1 *
+          ((p.getD (k * m + i) 0 - gAt g (k * m + i)) * (p.getD (k * m + i) 0 - gAt g (k * m + i))))
+        + (∑ k ∈ range d, pw.getD k 1 * ((p.getD (k * m + i) 0 - x.getD (k * m + i) 0) ^ 2
+            + (z.getD (k * m + i) 0 - p.getD (k * m + i) 0) ^ 2)) / (2 * s))
+      ≤ ∑ i ∈ range m, b i * (lam * E.sqrt (∑ k ∈ range d, pw.getD k 1 *
+          ((z.getD (k * m + i) 0 - gAt g (k * m + i)) * (z.getD (k * m + i) 0 - gAt g (k * m + i))))
+        + (∑ k ∈ range d, pw.getD k 1 * (z.getD (k * m + i) 0 - x.getD (k * m + i) 0) ^ 2)
+            / (2 * s)) := by
+  intro p
+  refine ⟨by simp only [p, Fn.prox, idxMap_length], ?_⟩
+  apply Finset.sum_le_sum
+  intro i hi
+  have hi' := mem_range.mp hi
+  apply mul_le_mul_of_nonneg_left _ (hb i hi')
+  have hpe : ∀ k ∈ range d, p.getD (k * m + i) 0 = _ :=
+    fun k hk => l1l2_getD E pw d m lam s g w x hd hx k i (mem_range.mp hk) hi'
+  have hgv := C07.group_soft_vi (range d) E.sqrt (fun k => pw.getD k 1)
+    (fun k => x.getD (k * m + i) 0) (fun k => gAt g (k * m + i)) (fun k => z.getD (k * m + i) 0)
+    (fun k => p.getD (k * m + i) 0)
+    (s * lam) (rd i) (re i) hsq (fun k hk => hpw k (mem_range.mp hk)) (mul_pos hs hl)
+    (hrd i hi').1 (hre i hi').1 (hrd i hi').2 (hre i hi').2 hpe
+  apply group_lift (range d) (fun k => pw.getD k 1) (fun k => x.getD (k * m + i) 0)
+    (fun k => p.getD (k * m + i) 0) (fun k => z.getD (k * m + i) 0) s _ _ hs
+  beta_reduce at hgv ⊢
+  linarith [hgv]
+
+/-- `ProximalHuber._call` on a PRODUCT space (`Huber(X^d, γ).proximal`, `γ > 0`) as EXECUTED by
+`Fn.prox` (`.huberG`): for every `d ≥ 1`, `m`, component weights `pw ≥ 0`, base weights `b ≥ 0`,
+float step, the result minimises `Σ_i b_i (f_γ(|z(i)|_pw) + Σ_k pw_k (z_k(i) − x_k(i))²/(2σ))`
+with a quadratic gap (`f_γ` the scalar Huber function, `|·|_pw` the point-wise 2-norm). -/
+theorem C07.huberG_list_minimises (E : Env K) (pw : List K) (d m : ℕ) (gam s : K)
+    (w x z : List K) (b rd re : ℕ → K)
+    (hsq : ∀ r, 0 ≤ r → E.sqrt (r * r) = r) (hd : 0 < d) (hx : x.length = d * m)
+    (hpw : ∀ k < d, 0 ≤ pw.getD k 1) (hg : 0 < gam) (hs : 0 < s) (hb : ∀ i < m, 0 ≤ b i)
+    (hrd : ∀ i < m, 0 ≤ rd i ∧ ∑ k ∈ range d, pw.getD k 1 *
+      (x.getD (k * m + i) 0 * x.getD (k * m + i) 0) = rd i * rd i)
+    (hre : ∀ i < m, 0 ≤ re i ∧ ∑ k ∈ range d, pw.getD k 1 *
+      (z.getD (k * m + i) 0 * z.getD (k * m + i) 0) = re i * re i) :
+    let p := Fn.prox E (.huberG pw d gam) w (.sc s) x
+    p.length = x.length ∧
+    ∑ i ∈ range m, b i * (huberFn gam (E.sqrt (∑ k ∈ range d, pw.getD k 1 *
+          (p.getD (k * m + i) 0 * p.getD (k * m + i) 0)))
+        + (∑ k ∈ range d, pw.getD k 1 * ((p.getD (k * m + i) 0 - x.getD (k * m + i) 0) ^ 2
+            + (z.getD (k * m + i) 0 - p.getD (k * m + i) 0) ^ 2)) / (2 * s))
+      ≤ ∑ i ∈ range m, b i * (huberFn gam (E.sqrt (∑ k ∈ range d, pw.getD k 1 *
+          (z.getD (k * m + i) 0 * z.getD (k * m + i) 0)))
+        + (∑ k ∈ range d, pw.getD k 1 * (z.getD (k * m + i) 0 - x.getD (k * m + i) 0) ^ 2)
+            / (2 * s)) := by
+  intro p
+  refine ⟨by simp only [p, Fn.prox, idxMap_length], ?_⟩
+  apply Finset.sum_le_sum
+  intro i hi
+  have hi' := mem_range.mp hi
+  apply mul_le_mul_of_nonneg_left _ (hb i hi')
+  have hpe : ∀ k ∈ range d, p.getD (k * m + i) 0 = _ :=
+    fun k hk => huberG_getD E pw d m gam s w x hd hx k i (mem_range.mp hk) hi'
+  have hgv := C07.group_huber_vi (range d) E.sqrt (fun k => pw.getD k 1)
+    (fun k => x.getD (k * m + i) 0) (fun k => z.getD (k * m + i) 0)
+    (fun k => p.getD (k * m + i) 0)
+    gam s (rd i) (re i) hsq (fun k hk => hpw k (mem_range.mp hk)) hg hs
+    (hrd i hi').1 (hre i hi').1 (hrd i hi').2 (hre i hi').2 hpe
+  apply group_lift (range d) (fun k => pw.getD k 1) (fun k => x.getD (k * m + i) 0)
+    (fun k => p.getD (k * m + i) 0) (fun k => z.getD (k * m + i) 0) s _ _ hs
+  exact hgv
+
+/-- The same for `γ = 0` (documented as the isotropic group L1-L2 norm, the TV case): the
+executed `.huberG … 0` minimises `Σ_i b_i (|z(i)|_pw + Σ_k pw_k (z_k(i) − x_k(i))²/(2σ))`. -/
+theorem C07.huberG_list_minimises_gamma0 (E : Env K) (pw : List K) (d m : ℕ) (s : K)
+    (w x z : List K) (b rd re : ℕ → K)
+    (hsq : ∀ r, 0 ≤ r → E.sqrt (r * r) = r) (hd : 0 < d) (hx : x.length = d * m)
+    (hpw : ∀ k < d, 0 ≤ pw.getD k 1) (hs : 0 < s) (hb : ∀ i < m, 0 ≤ b i)
+    (hrd : ∀ i < m, 0 ≤ rd i ∧ ∑ k ∈ range d, pw.getD k 1 *
+      (x.getD (k * m + i) 0 * x.getD (k * m + i) 0) = rd i * rd i)
+    (hre : ∀ i < m, 0 ≤ re i ∧ ∑ k ∈ range d, pw.getD k 1 *
+      (z.getD (k * m + i) 0 * z.getD (k * m + i) 0) = re i * re i) :
+    let p := Fn.prox E (.huberG pw d 0) w (.sc s) x
+    p.length = x.length ∧
+    ∑ i ∈ range m, b i * (E.sqrt (∑ k ∈ range d, pw.getD k 1 *
+          (p.getD (k * m + i) 0 * p.getD (k * m + i) 0))
+        + (∑ k ∈ range d, pw.getD k 1 * ((p.getD (k * m + i) 0 - x.getD (k * m + i) 0) ^ 2
+            + (z.getD (k * m + i) 0 - p.getD (k * m + i) 0) ^ 2)) / (2 * s))
+      ≤ ∑ i ∈ range m, b i * (E.sqrt (∑ k ∈ range d, pw.getD k 1 *
+          (z.getD (k * m + i) 0 * z.getD (k * m + i) 0))
+        + (∑ k ∈ range d, pw.getD k 1 * (z.getD (k * m + i) 0 - x.getD (k * m + i) 0) ^ 2)
+            / (2 * s)) := by
+  intro p
+  refine ⟨by simp only [p, Fn.prox, idxMap_length], ?_⟩
+  apply Finset.sum_le_sum
+  intro i hi
+  have hi' := mem_range.mp hi
+  apply mul_le_mul_of_nonneg_left _ (hb i hi')
+  have hpe : ∀ k ∈ range d, p.getD (k * m + i) 0 = _ :=
+    fun k hk => huberG_getD E pw d m 0 s w x hd hx k i (mem_range.mp hk) hi'
+  have hgv := C07.group_huber_vi_gamma0 (range d) E.sqrt (fun k => pw.getD k 1)
+    (fun k => x.getD (k * m + i) 0) (fun k => z.getD (k * m + i) 0)
+    (fun k => p.getD (k * m + i) 0)
+    s (rd i) (re i) hsq (fun k hk => hpw k (mem_range.mp hk)) hs
+    (hrd i hi').1 (hre i hi').1 (hrd i hi').2 (hre i hi').2 hpe
+  apply group_lift (range d) (fun k => pw.getD k 1) (fun k => x.getD (k * m + i) 0)
+    (fun k => p.getD (k * m + i) 0) (fun k => z.getD (k * m + i) 0) s _ _ hs
+  exact hgv
+
+/-- `proximal_convex_conj_l1_l2` (`IndicatorGroupL1UnitBall(·, 2).proximal`, data term `g`) as
+EXECUTED by `Fn.prox` (`.ccl1l2`): every point-wise group of the result has `pw`-norm `≤ lam`
+(the result is in the constraint set), and against every `z` whose groups have norm `≤ lam` the
+projection inequality `Σ_i b_i Σ_k pw_k (x − σ g − p)(z − p) ≤ 0` holds — i.e. `p` is the
+proximal point of `ι_{|·| ≤ lam} + ⟨·, g⟩` with step `σ` in the weighted product-space norm. -/
+theorem C07.ccl1l2_list_projection (E : Env K) (pw : List K) (d m : ℕ) (lam s : K)
+    (g : Option (List K)) (w x z : List K) (b rd re : ℕ → K)
+    (hsq : ∀ r, 0 ≤ r → E.sqrt (r * r) = r) (hd : 0 < d) (hx : x.length = d * m)
+    (hpw : ∀ k < d, 0 ≤ pw.getD k 1) (hl : 0 < lam) (hb : ∀ i < m, 0 ≤ b i)
+    (hrd : ∀ i < m, 0 ≤ rd i ∧ ∑ k ∈ range d, pw.getD k 1 *
+      ((x.getD (k * m + i) 0 - s * gAt g (k * m + i))
+        * (x.getD (k * m + i) 0 - s * gAt g (k * m + i))) = rd i * rd i)
+    (hre : ∀ i < m, (0 ≤ re i ∧ re i ≤ lam) ∧ ∑ k ∈ range d, pw.getD k 1 *
+      (z.getD (k * m + i) 0 * z.getD (k * m + i) 0) = re i * re i) :
+    let p := Fn.prox E (.ccl1l2 pw d lam g) w (.sc s) x
+    p.length = x.length ∧
+    (∀ i < m, E.sqrt (∑ k ∈ range d, pw.getD k 1 *
+        (p.getD (k * m + i) 0 * p.getD (k * m + i) 0)) ≤ lam) ∧
+    ∑ i ∈ range m, b i * (∑ k ∈ range d, pw.getD k 1 *
+      ((x.getD (k * m + i) 0 - s * gAt g (k * m + i) - p.getD (k * m + i) 0)
+        * (z.getD (k * m + i) 0 - p.getD (k * m + i) 0))) ≤ 0 := by
+  intro p
+  have hpe : ∀ i < m, ∀ k ∈ range d, p.getD (k * m + i) 0 = _ :=
+    fun i hi' k hk => ccl1l2_getD E pw d m lam s g w x hd hx k i (mem_range.mp hk) hi'
+  have hgv := fun i (hi' : i < m) =>
+    C07.group_ball_vi (range d) E.sqrt (fun k => pw.getD k 1)
+      (fun k => x.getD (k * m + i) 0 - s * gAt g (k * m + i)) (fun k => z.getD (k * m + i) 0)
+      (fun k => p.getD (k * m + i) 0)
+      lam (rd i) (re i) hsq (fun k hk => hpw k (mem_range.mp hk)) hl
+      (hrd i hi').1 (hre i hi').1.1 (hre i hi').1.2 (hrd i hi').2 (hre i hi').2 (hpe i hi')
+  refine ⟨by simp only [p, Fn.prox, idxMap_length], ?_, ?_⟩
+  · intro i hi'
+    exact (hgv i hi').1
+  · apply Finset.sum_nonpos
+    intro i hi
+    have hi' := mem_range.mp hi
+    exact mul_nonpos_of_nonneg_of_nonpos (hb i hi') (hgv i hi').2
+/-! Non-vacuity of the group theorems: power space `X^2` with component weights `(1, 4)`, two
+points, `x = ((3, 0), (2, 1))` (point-wise norms 5 and 2), over `ℝ` with `Real.sqrt`. -/
+example := C07.l1l2_list_minimises (⟨Real.sqrt, 0⟩ : Env ℝ) [1, 4] 2 2 1 (1 / 2) none
+  [1, 1, 4, 4] [3, 0, 2, 1] [0, 0, 0, 0] (fun _ => 1 / 2) (fun i => if i = 0 then 5 else 2)
+  (fun _ => 0) (fun r hr => Real.sqrt_mul_self hr) (by norm_num) rfl
+  (by intro k hk; interval_cases k <;> simp) one_pos (by norm_num) (by intro i _; norm_num)
+  (by intro i hi; interval_cases i <;> simp [Finset.sum_range_succ, gAt] <;> norm_num)
+  (by intro i hi; interval_cases i <;> simp [Finset.sum_range_succ, gAt])
+
+example := C07.huberG_list_minimises (⟨Real.sqrt, 0⟩ : Env ℝ) [1, 4] 2 2 (1 / 2) 1
+  [1, 1, 4, 4] [3, 0, 2, 1] [0, 0, 0, 0] (fun _ => 1 / 2) (fun i => if i = 0 then 5 else 2)
+  (fun _ => 0) (fun r hr => Real.sqrt_mul_self hr) (by norm_num) rfl
+  (by intro k hk; interval_cases k <;> simp) (by norm_num) one_pos (by intro i _; norm_num)
+  (by intro i hi; interval_cases i <;> simp [Finset.sum_range_succ] <;> norm_num)
+  (by intro i hi; interval_cases i <;> simp [Finset.sum_range_succ])
+
+example := C07.huberG_list_minimises_gamma0 (⟨Real.sqrt, 0⟩ : Env ℝ) [1, 4] 2 2 3
+  [1, 1, 4, 4] [3, 0, 2, 1] [0, 0, 0, 0] (fun _ => 1 / 2) (fun i => if i = 0 then 5 else 2)
+  (fun _ => 0) (fun r hr => Real.sqrt_mul_self hr) (by norm_num) rfl
+  (by intro k hk; interval_cases k <;> simp) (by norm_num) (by intro i _; norm_num)
+  (by intro i hi; interval_cases i <;> simp [Finset.sum_range_succ] <;> norm_num)
+  (by intro i hi; interval_cases i <;> simp [Finset.sum_range_succ])
+
+example := C07.ccl1l2_list_projection (⟨Real.sqrt, 0⟩ : Env ℝ) [1, 4] 2 2 3 1 none
+  [1, 1, 4, 4] [3, 0, 2, 1] [0, 0, 0, 0] (fun _ => 1 / 2) (fun i => if i = 0 then 5 else 2)
+  (fun _ => 0) (fun r hr => Real.sqrt_mul_self hr) (by norm_num) rfl
+  (by intro k hk; interval_cases k <;> simp) (by norm_num) (by intro i _; norm_num)
+  (by intro i hi; interval_cases i <;> simp [Finset.sum_range_succ, gAt] <;> norm_num)
+  (by intro i hi; interval_cases i <;> simp [Finset.sum_range_succ])
+
+
+end Group
+
 /-! ## Kullback–Leibler (over ℝ, `np.sqrt` = `Real.sqrt`) -/
 
 /-- `ProximalConvexConjKL._call` at one point, over ℝ with the true square root:
